@@ -6,40 +6,47 @@ from specs import sched_env, n_cases
 def gen_script(rng, maxf, maxops):
     nf = rng.randrange(2, maxf + 1)
     fibers = [[] for _ in range(nf)]
-    waits = 0
+    # blocking ops and the op that releases them: semaphore wait/post, pipe k read/write
+    release = {"w": "p", "r0": "x0", "r1": "x1"}
+    need = {"p": 0, "x0": 0, "x1": 0}
     for i in range(nf):
         for _ in range(rng.randrange(1, maxops + 1)):
             r = rng.random()
-            if r < 0.30:
+            if r < 0.26:
                 fibers[i] += ["l"] + (["y"] if rng.random() < 0.5 else []) + ["u"]
-            elif r < 0.50:
+            elif r < 0.44:
                 fibers[i].append("y")
-            elif r < 0.65:
+            elif r < 0.56:
                 fibers[i].append("s")
-            elif r < 0.85:
+            elif r < 0.70:
                 fibers[i].append("p")
-            else:
+            elif r < 0.80:
+                fibers[i].append(rng.choice(["x0", "x1"]))
+            elif r < 0.90:
                 fibers[i].append("w")
-                waits += 1
-    # every semaphore wait must be matched by a post somewhere: give the posts to fibers that
-    # never wait after them — simplest: append the missing posts to a fiber's front
-    posts = sum(f.count("p") for f in fibers)
-    need = max(0, waits - posts)
-    # a fiber without any `w` gets the extra posts up front so no wait can block for ever
-    nowait = [i for i in range(nf) if "w" not in fibers[i]]
-    if need and not nowait:
-        fibers.append([])
-        nowait = [len(fibers) - 1]
-    for _ in range(need):
-        fibers[rng.choice(nowait)].insert(0, "p")
-    # posts placed after a wait of the same fiber could deadlock when every fiber waits first:
-    # make sure at least `waits` posts are reachable without waiting: move all posts of
-    # waiting fibers before their first wait
+            else:
+                fibers[i].append(rng.choice(["r0", "r1"]))
     for f in fibers:
-        if "w" in f:
-            ps = [x for x in f if x == "p"]
-            rest = [x for x in f if x != "p"]
-            f[:] = ps + rest
+        for op in f:
+            if op in release:
+                need[release[op]] += 1
+    # every blocking op must be matched by a release somewhere: give the missing ones to a
+    # fiber that never blocks, up front, so no wait can block for ever
+    noblock = [i for i in range(nf) if not any(op in release for op in fibers[i])]
+    have = {k: sum(f.count(k) for f in fibers) for k in need}
+    missing = [k for k in need for _ in range(max(0, need[k] - have[k]))]
+    if missing and not noblock:
+        fibers.append([])
+        noblock = [len(fibers) - 1]
+    for k in missing:
+        fibers[rng.choice(noblock)].insert(0, k)
+    # releases placed after a blocking op of the same fiber could deadlock when every fiber
+    # blocks first: move all releases of blocking fibers before their first blocking op
+    for f in fibers:
+        if any(op in release for op in f):
+            rel = [x for x in f if x in need]
+            rest = [x for x in f if x not in need]
+            f[:] = rel + rest
     return "|".join(",".join(f) if f else "y" for f in fibers)
 
 
@@ -143,7 +150,7 @@ SPEC = {
                   _borrow("C11", "multichan", 80, 1000, harness="multichan"),
                   _borrow("C06", "sem", 80, 1000), _borrow("C20", "multisignal", 80, 1000),
                   _borrow("C09", "sleep", 80, 1000)],
-        "rule": "cases = (mixed program over yield/mutex/semaphore/sleep/join for 2-7 fibers, plus the scripts of the mutex, condition-variable, rwlock, barrier, signal, channel (bounded/unbounded/sp), multi-channel, semaphore, multi-signal and sleep (virtual clock) harnesses followed by the runtime model, 1-4 kernel threads, scheduler kind+seed) from VERIF_SEED; distinct = different (script, sha1 of the access sequence); non-trivial = a fiber was stolen by another kernel thread or at least 12 state-word writes happened",
+        "rule": "cases = (mixed program over yield/mutex/semaphore/sleep/join/pipe read+write (fd waits) for 2-7 fibers, plus the scripts of the mutex, condition-variable, rwlock, barrier, signal, channel (bounded/unbounded/sp), multi-channel, semaphore, multi-signal and sleep (virtual clock) harnesses followed by the runtime model, 1-4 kernel threads, scheduler kind+seed) from VERIF_SEED; distinct = different (script, sha1 of the access sequence); non-trivial = a fiber was stolen by another kernel thread or at least 12 state-word writes happened",
         "trusted_base": [
             "run queues as bags at the deque API (rqpush/rqpop/rqsteal call-site events; deque internals = model Wsd, C02)",
             "publication of a waiting fiber reduces to two rules (self-published with SAVING / published by the successor's maintenance); a primitive publishing otherwise is rejected at run time by the model's wake guard",
